@@ -28,6 +28,11 @@ type YAMLAccountManager struct {
 	accounts   map[string]hotline.Account
 	accountDir string
 
+	// files holds, for an account that was loaded from a file not named after its login, the path of that file.
+	// Such a file is written by the operator, or left behind by a crash in the middle of a rename.  The account
+	// lives in that file: edits, renames and deletions go to it, not to a second file named after the login.
+	files map[string]string
+
 	mu sync.Mutex
 }
 
@@ -35,6 +40,7 @@ func NewYAMLAccountManager(accountDir string) (*YAMLAccountManager, error) {
 	accountMgr := YAMLAccountManager{
 		accountDir: accountDir,
 		accounts:   make(map[string]hotline.Account),
+		files:      make(map[string]string),
 	}
 
 	matches, err := filepath.Glob(filepath.Join(accountDir, "*.yaml"))
@@ -57,6 +63,14 @@ func NewYAMLAccountManager(accountDir string) (*YAMLAccountManager, error) {
 			return nil, fmt.Errorf("unmarshal: %v", err)
 		}
 
+		// When a file named after the login exists as well, that one holds the account and this one is a leftover.
+		ownFile := accountMgr.loginFile(account.Login)
+		if filePath != ownFile {
+			if _, err := os.Stat(ownFile); err == nil {
+				continue
+			}
+		}
+
 		// Check the account file contents for a field name that only appears in the new AccessBitmap flag format.
 		// If not present, re-save the file to migrate it from the old array of ints format to new bool flag format.
 		if !strings.Contains(string(fileContents), "    DownloadFile:") {
@@ -65,10 +79,29 @@ func NewYAMLAccountManager(accountDir string) (*YAMLAccountManager, error) {
 			}
 		}
 
+		if filePath != ownFile {
+			if _, err := os.Stat(ownFile); err != nil {
+				accountMgr.files[account.Login] = filePath
+			}
+		}
+
 		accountMgr.accounts[account.Login] = account
 	}
 
 	return &accountMgr, nil
+}
+
+// loginFile is the name of the file an account is created in.
+func (am *YAMLAccountManager) loginFile(login string) string {
+	return filepath.Join(am.accountDir, path.Join("/", login)+".yaml")
+}
+
+// accountFile is the file that holds the account.
+func (am *YAMLAccountManager) accountFile(login string) string {
+	if f, ok := am.files[login]; ok {
+		return f
+	}
+	return am.loginFile(login)
 }
 
 func (am *YAMLAccountManager) Create(account hotline.Account) error {
@@ -100,16 +133,23 @@ func (am *YAMLAccountManager) Update(account hotline.Account, newLogin string) e
 	am.mu.Lock()
 	defer am.mu.Unlock()
 
+	accountFile := am.accountFile(account.Login)
+
 	// If the login has changed, rename the account file.
 	if account.Login != newLogin {
-		err := os.Rename(
-			filepath.Join(am.accountDir, path.Join("/", account.Login)+".yaml"),
-			filepath.Join(am.accountDir, path.Join("/", newLogin)+".yaml"),
-		)
-		if err != nil {
-			return fmt.Errorf("error renaming account file: %w", err)
+		// (A crash in the middle of an earlier rename to this login leaves the account in the new file already.)
+		if newFile := am.loginFile(newLogin); accountFile != newFile {
+			// Never rename onto a file that holds another account.
+			if _, err := os.Stat(newFile); err == nil {
+				return fmt.Errorf("error renaming account file: %w", os.ErrExist)
+			}
+			if err := os.Rename(accountFile, newFile); err != nil {
+				return fmt.Errorf("error renaming account file: %w", err)
+			}
+			accountFile = newFile
 		}
 
+		delete(am.files, account.Login)
 		delete(am.accounts, account.Login)
 
 		account.Login = newLogin
@@ -121,7 +161,7 @@ func (am *YAMLAccountManager) Update(account hotline.Account, newLogin string) e
 		return err
 	}
 
-	if err := writeFileAtomic(filepath.Join(am.accountDir, path.Join("/", newLogin)+".yaml"), out, 0644); err != nil {
+	if err := writeFileAtomic(accountFile, out, 0644); err != nil {
 		return fmt.Errorf("error writing account file: %w", err)
 	}
 
@@ -158,11 +198,12 @@ func (am *YAMLAccountManager) Delete(login string) error {
 	am.mu.Lock()
 	defer am.mu.Unlock()
 
-	err := os.Remove(filepath.Join(am.accountDir, path.Join("/", login+".yaml")))
+	err := os.Remove(am.accountFile(login))
 	if err != nil {
 		return fmt.Errorf("delete account file: %v", err)
 	}
 
+	delete(am.files, login)
 	delete(am.accounts, login)
 
 	return nil
